@@ -216,6 +216,18 @@ var nativeMods = map[string]func(ms *modSet, c *ssa.CallCommon){
 		ms.allocs = true
 	},
 	"(http.Header).Del": func(ms *modSet, c *ssa.CallCommon) { ms.addMap(c.Args[0].Type()) },
+	"json.Unmarshal": func(ms *modSet, c *ssa.CallCommon) {
+		ms.allocs = true
+		if mi, ok := c.Args[1].(*ssa.MakeInterface); ok {
+			if a, ok := mi.X.(*ssa.Alloc); ok && !a.Heap && !isStruct(deref(a.Type())) {
+				ms.cells[a] = true
+				return
+			}
+			ms.addPointee(mi.X.Type())
+			return
+		}
+		ms.all = true
+	},
 }
 
 var nativePure = map[string]bool{
